@@ -2,6 +2,7 @@ use crate::core::Cx;
 
 pub mod c06;
 pub mod c08;
+pub mod c09;
 pub mod c12;
 pub mod c13;
 pub mod c14;
@@ -16,6 +17,7 @@ pub fn run(id: &str, cx: &mut Cx) -> bool {
     match id {
         "C06" => c06::run(cx),
         "C08" => c08::run(cx),
+        "C09" => c09::run(cx),
         "C12" => c12::run(cx),
         "C13" => c13::run(cx),
         "C14" => c14::run(cx),
